@@ -43,7 +43,8 @@ def h_roundtrip(nr, nc, idk, mdk, zeros):
     smd = MD_MENUS['text' if mdk == 'taxonomy' else mdk](sids, 'sample') if mdk not in ('taxonomy-with-null',) else None
     tid = pick([None, 'my table id'], 'table-id')
     typ = pick([None, 'OTU table', 'Metabolite table'], 'type')
-    gmd = pick([None, {'tree': ('newick', '((a,b),c);')}, {'tree': ('newick', '((a,b),c);'), 'graph': ('json', '{"x": 1}')}], 'group-md')
+    gmd = pick([None, {'tree': ('newick', '((a,b),c);')}, {'tree': ('newick', '((a,b),c);'), 'graph': ('json', '{"x": 1}')},
+                {'tree': ('newick', '((\u00e9,\u03b2),\u4e2d);')}], 'group-md')
     kw = {}
     if gmd is not None:
         kw['observation_group_metadata'] = dict(gmd)
